@@ -35,10 +35,46 @@ Seam(n, nb, p) ==   \* where the worker boundaries fall relative to the batch se
     LET s == nb - 2 * T  ch == n \div p
     IN {IF (w * ch) % nb = 0 THEN "on" ELSE IF (w * ch) % nb < T THEN "after" ELSE IF (w * ch) % nb > nb - T THEN "before" ELSE "mid"
         : w \in 1..(p - 1)}
-RealTuples == {<<n, nb, p>> \in RealNS \X RealNB \X RealNP : n >= nb \/ n > 2 * T}
+\* ---- mutation-aware selection: plausible slips in the worker arithmetic (implementation-layer variants) and, for each
+\* real-magnitude tuple, which of them would break the property there.  The harness runs the real code on tuples that
+\* are sensitive to each variant, i.e. exactly where the property is fragile.
+Muts == {"guard_off", "maxs_clamp", "start_floor", "start_stride", "break_gt", "maxs_early"}
+MLastS(b, n, nb) == Min(b * (nb - 2 * T) + nb, n)
+MStart(m, w, n, nb, p) ==
+    LET ch == n \div p IN
+    CASE m = "start_floor" -> (w * ch) \div nb
+      [] m = "start_stride" -> CeilDiv(w * ch, nb - 2 * T)
+      [] OTHER -> CeilDiv(w * ch, nb)
+MMaxS(m, w, n, nb, p) ==
+    LET ch == n \div p IN
+    CASE m = "maxs_clamp" -> Min(n, (w + 1) * ch)
+      [] m = "maxs_early" -> IF w = p - 1 THEN n ELSE (w + 1) * ch - 1
+      [] OTHER -> IF w = p - 1 THEN n ELSE (w + 1) * ch
+MStops(m, b, maxs, n, nb) == IF m = "break_gt" THEN MLastS(b, n, nb) > maxs \/ MLastS(b, n, nb) = n ELSE MLastS(b, n, nb) >= maxs
+\* batches written by worker w under variant m (the guard of the fix is active unless m = "guard_off")
+MBatches(m, w, n, nb, p) ==
+    LET b0 == MStart(m, w, n, nb, p)
+        maxs == MMaxS(m, w, n, nb, p)
+        s == nb - 2 * T
+        idle == m # "guard_off" /\ b0 > 0 /\ b0 * s + 2 * T >= n
+        bend == CHOOSE b \in b0..(b0 + n \div s + 2) : MStops(m, b, maxs, n, nb) /\ \A c \in b0..(b - 1) : ~MStops(m, c, maxs, n, nb)
+    IN IF idle THEN {} ELSE b0..bend
+MOutcome(m, n, nb, p) ==
+    LET s == nb - 2 * T
+        lastb == IF n <= nb THEN 0 ELSE CeilDiv(n - nb, s)
+        wr == UNION {MBatches(m, w, n, nb, p) : w \in 0..(p - 1)}
+    IN IF \E b \in wr : n - b * s < T THEN "crash"
+       ELSE IF wr = 0..lastb THEN "ok"
+       ELSE IF \E b \in 0..lastb : b \notin wr THEN "gap" ELSE "tail"
+Sens(n, nb, p) == {m \in Muts : MOutcome(m, n, nb, p) # "ok"}
+RealNSFor(nb) == RealNS \cup {nb + k * (nb - 2 * T) + r : k \in 0..3, r \in {0, 1, 2, 3, 5, 7}}
+RealTuples == {t \in (UNION {RealNSFor(nb) : nb \in RealNB}) \X RealNB \X RealNP : t[1] \in RealNSFor(t[2]) /\ t[1] > 2 * T /\ t[1] >= t[3]}
 ExportTuples == TLCGet("distinct") >= 0 /\
     JsonSerialize(IOEnv.OUT_FILE, SetToSeq({[ns |-> t[1], nb |-> t[2], np |-> t[3], hazard |-> Hazard(t[1], t[2], t[3]),
                                              seams |-> SetToSeq(Seam(t[1], t[2], t[3])),
+                                             sens |-> SetToSeq(Sens(t[1], t[2], t[3])),
                                              nbatches |-> (IF t[1] <= t[2] THEN 0 ELSE CeilDiv(t[1] - t[2], t[2] - 2 * T)) + 1]
                                             : t \in RealTuples}))
+\* the current tree (guard on, no variant) must be "ok" everywhere: checked as an assumption of the export run
+ASSUME \A t \in RealTuples : MOutcome("none", t[1], t[2], t[3]) = "ok"
 ====
